@@ -46,6 +46,28 @@ type vfC18Inst struct {
 	conn     map[string]bool
 	handlers []*vfEvtHandler
 	router   string
+	lastEv   string
+	lastPts  []vfChoicePoint
+}
+
+// LastDeviations: which of several pending events NextPeerEvent hands out is map iteration order in the
+// library; the hook gives the choice to the explorer, which takes every alternative as a sibling event.
+func (in *vfC18Inst) LastDeviations() []string {
+	if strings.Contains(in.lastEv, "!") {
+		return nil
+	}
+	var out []string
+	for k, p := range in.lastPts {
+		if p.Kind != "event" {
+			continue
+		}
+		for v := 0; v < p.N; v++ {
+			if v != p.Def {
+				out = append(out, fmt.Sprintf("%s!%d=%d", in.lastEv, k, v))
+			}
+		}
+	}
+	return out
 }
 
 func vfC18New(x *vfExec, router string) *vfC18Inst {
@@ -184,7 +206,11 @@ func (in *vfC18Inst) truth() (members []string, logs map[string]int) {
 	return
 }
 
-func (in *vfC18Inst) Apply(ev string, judge bool) string {
+func (in *vfC18Inst) Apply(evFull string, judge bool) string {
+	ev, ov := vfSplitChoice(evFull)
+	vfCh.begin(ov)
+	in.lastEv = evFull
+	defer func() { in.lastPts = vfCh.points() }()
 	name, arg, _ := strings.Cut(ev, ":")
 	switch name {
 	case "sub":
@@ -255,6 +281,7 @@ func (in *vfC18Inst) Canon() string {
 }
 
 func (in *vfC18Inst) Finish(judge bool) string {
+	vfCh.begin(nil)
 	// drain every live handler, then compare the fold with the ground truth
 	var obs []string
 	for _, h := range in.handlers {
@@ -311,9 +338,9 @@ func (in *vfC18Inst) Finish(judge bool) string {
 }
 
 func vfC18Cfg(r *vfRun, router string) *vfExploreCfg {
-	depth := 5
+	depth := 8
 	if r.thorough {
-		depth = 7
+		depth = 11
 	}
 	return &vfExploreCfg{
 		Scenario: map[string]any{"router": router},
